@@ -1634,6 +1634,7 @@ def _opt4_workflow(
 
         # Finalizing
         LogErrorPass(),
+        ApplyPlacement(),
     ]
 
 
